@@ -8,6 +8,7 @@
   any sign / order / choice inside a degenerate eigenspace.
 -/
 import CijProofs.Lemmas.Shear
+import CijProofs.Lemmas.ShearSource
 import Mathlib.Analysis.Real.Sqrt
 
 namespace Cij.C03
@@ -223,5 +224,23 @@ example : (origPairs (keyOfVoigt (4, 4))).map keyOfPairs = [] ∧
     (modulusKeysRotated (α := ℚ) (fun x => decide (x = 0)) (fun a => ![-1, 0, 1] a)).map Modulus.voigt =
       [some (1, 1), some (1, 3), some (1, 3), some (3, 3)] := by
   decide +kernel
+
+/-! #### the model IS the source: formulas and loop structure re-extracted from shear.py on this run
+
+`tools/gen_tables.py` extracts the term accumulated into `_energy`, the value returned by
+`get_target_elastic_modulus` (locals inlined) and checks the loop structure (`itertools.product(nz, nz)`, key
+`c_(i+1, j+1, k+1, l+1)`, skip condition `target and key == target`) of both strain-energy functions.  The model's
+`strainEnergy` fold and `targetModulus` are definitionally those expressions for every scalar type. -/
+
+theorem c03_model_is_source {α : Type} [Add α] [Sub α] [Mul α] [Div α] [NatCast α]
+    (isZero : α → Bool) (e : Shear.Mat3 α) (resolve : Modulus → α) (target : Option Modulus) (key : Modulus) (eRot eOrig : α) :
+    Shear.strainEnergy isZero e resolve target =
+      (Shear.energyPairs isZero e target).foldl
+        (fun acc pq => acc + ShExpr.eval (ShExpr.envOf (resolve (Shear.keyOfPairs pq)) (e pq.1.1 pq.1.2) (e pq.2.1 pq.2.2) acc acc acc)
+          Generated.shearEnergyTerm) ((0 : Nat) : α) ∧
+    Shear.targetModulus key e eRot eOrig =
+      ShExpr.eval (ShExpr.envOf eRot (e (Shear.idx key.i.i) (Shear.idx key.i.j)) (e (Shear.idx key.j.i) (Shear.idx key.j.j)) eRot eOrig
+        ((key.multiplicity : Nat) : α)) Generated.shearTarget :=
+  ⟨ShExpr.energy_term_is_source isZero e resolve target, ShExpr.target_is_source key e eRot eOrig⟩
 
 end Cij.C03
